@@ -142,7 +142,7 @@ def check_molecules(n, bits):
     import biotite.structure as struc
     pairs = [p for p in PAIRS5 if p[1] < n]
     edges = [p for k, p in enumerate(pairs) if bits >> k & 1]
-    bl = struc.BondList(n, np.array([[a, b, 1 + (a + b) % 3] for a, b in edges], dtype=np.int64).reshape(-1, 3))
+    bl = struc.BondList(n, np.array([[a, b, (bits + 2 * a + b) % len(struc.BondType)] for a, b in edges], dtype=np.int64).reshape(-1, 3))      # every bond type incl. ANY, aromatic and COORDINATION
     want = components(n, edges)
     got = sorted(sorted(int(x) for x in m) for m in struc.get_molecule_indices(bl))
     if got != want:
